@@ -176,7 +176,11 @@ impl<G: SerializeElement> SerializeElement for Vec<G> {
             where
                 A: SeqAccess<'de>,
             {
-                let mut elems = Vec::with_capacity(seq.size_hint().unwrap_or(0));
+                // Never trust the announced length for pre-allocation: cap it (at about 1 MiB)
+                // and let the vector grow with the elements that actually arrive.
+                let max_preallocated = (1024 * 1024) / std::mem::size_of::<G>().max(1);
+                let mut elems =
+                    Vec::with_capacity(seq.size_hint().unwrap_or(0).min(max_preallocated));
                 while let Some(elem) = seq.next_element::<DeWrapper<G>>()? {
                     elems.push(elem.0);
                 }
